@@ -653,4 +653,34 @@ func c03FamilySets(c *Ctx) {
 		}
 		c.Check(rule, fnName(fn)+"|"+t.name+"|selected-by-address-family", ok && n > 0, fn.Pos(), fmt.Sprintf("%d updates of %s", n, t.name))
 	}
+	// every subnet is accounted for in its family's set: the only way past the family update is the "no prefix sets"
+	// configuration switch. A shortcut taken because the COMBINED set already knows the length (seed c03r4h) leaves
+	// lengths shared by an IPv4 and an IPv6 subnet out of the second family's set.
+	stop := map[*ssa.BasicBlock]bool{}
+	for _, b := range fn.Blocks {
+		for _, in := range b.Instrs {
+			if fa, isFA := in.(*ssa.FieldAddr); isFA && (fieldOf(fa) == f4 || fieldOf(fa) == f6) {
+				stop[b] = true
+			}
+		}
+	}
+	fNo := c.FieldOpt("dnsdata", "Accum", "NoPrefixSets")
+	skips := 0
+	var where []string
+	for _, ret := range returnsOf(fn) {
+		if stop[ret.Block()] {
+			continue
+		}
+		// reachable from the entry without a family update?
+		if !reachable(fn.Blocks[0], stop)[ret.Block()] {
+			continue
+		}
+		// allowed: the return guarded by the configuration switch only
+		onlySwitch := fNo != nil && hasFact(ret.Block(), func(v ssa.Value, truth bool) bool { return truth && isFieldLoad(v, fNo) })
+		if !onlySwitch {
+			skips++
+			where = append(where, c.relPos(ret.Pos()))
+		}
+	}
+	c.Check(rule, fnName(fn)+"|family-set-updated-on-every-path", skips == 0 && len(stop) > 0, fn.Pos(), fmt.Sprintf("returns reached without updating the subnet's family set: %v", where))
 }
